@@ -51,7 +51,7 @@ class C10(Check):
         "pre-emption at sync operations and at line granularity inside black_it/schedulers/*; finer interleavings assumed unobservable under the GIL",
         "the calibration loop is played by the harness (get_next_sampler/update with scripted losses)",
     ]
-    quick = {"runs": 2500, "wall": 45, "item_timeout": 150}
+    quick = {"runs": 2500, "wall": 150, "item_timeout": 300}
     thorough = {"runs": 150000, "wall": 900, "item_timeout": 600}
 
     def gen(self, rng, tier, i):
